@@ -271,7 +271,14 @@ func (tracker *flowTracker) run() {
 	reachedNode := false
 	for {
 		select {
-		case trace := <-tracker.traces:
+		case trace, ok := <-tracker.traces:
+			if !ok {
+				// the tracer has terminated and closed the subscription
+				if locked {
+					tracker.lock.Unlock()
+				}
+				return
+			}
 			locked, notify, reachedNode = tracker.handleTrace(locked, trace, notify, reachedNode)
 			// continue draining
 			continue
@@ -297,7 +304,13 @@ func (tracker *flowTracker) run() {
 			// for an event without doing busy work (this `default` clause)
 		}
 		select {
-		case trace := <-tracker.traces:
+		case trace, ok := <-tracker.traces:
+			if !ok {
+				if locked {
+					tracker.lock.Unlock()
+				}
+				return
+			}
 			locked, notify, reachedNode = tracker.handleTrace(locked, trace, notify, reachedNode)
 		case <-tracker.shutdownCh:
 			if locked {
